@@ -280,6 +280,7 @@ func (a *Analyzer) postUse(l *Loop, obj types.Object) (string, string) {
 		return "M", ""
 	}
 	// S: walking outwards, the statements that follow the loop must sort obj before anything else mentions it
+	a.lastSortWhy = ""
 	for depth := len(path) - 1; depth >= 0; depth-- {
 		fr := path[depth]
 		for _, st := range fr.list[fr.idx+1:] {
@@ -293,7 +294,11 @@ func (a *Analyzer) postUse(l *Loop, obj types.Object) (string, string) {
 				}
 				return "S", ""
 			case "bad":
-				return "", "the first use after the loop (" + a.pos(st.Pos()) + ") is not a canonicalising sort"
+				w := ""
+				if a.lastSortWhy != "" {
+					w = ": " + a.lastSortWhy
+				}
+				return "", "the first use after the loop (" + a.pos(st.Pos()) + ") is not a canonicalising sort" + w
 			}
 		}
 		if fr.loop {
@@ -339,9 +344,11 @@ func (a *Analyzer) firstMention(info *types.Info, st ast.Stmt, obj types.Object)
 	switch s := st.(type) {
 	case *ast.ExprStmt:
 		if call, ok := s.X.(*ast.CallExpr); ok {
-			if ok, _ := a.sortCall(info, call, obj); ok {
+			ok, why := a.sortCall(info, call, obj)
+			if ok {
 				return "sorted"
 			}
+			a.lastSortWhy = why
 		}
 		return "bad"
 	case *ast.IfStmt:
@@ -477,6 +484,11 @@ func (a *Analyzer) comparatorTotal(info *types.Info, e ast.Expr) (bool, string) 
 		}
 		return true
 	})
+	if okAll {
+		if ok, w := a.antisymmetric(info, fl, params); !ok {
+			return false, w
+		}
+	}
 	return okAll, why
 }
 
